@@ -79,8 +79,8 @@ META = dict(
     rule="case = (label_length, label style, statement form, selection); evaluated on 2 rows x 2 executions; non-trivial = at least two selected "
     "expressions bear a common name (collision exercised)",
     assumptions=["all cell values of a joined row are pairwise distinct (by construction)", "SQLite returns the columns in SELECT-list order"],
-    bounds=dict(quick="all selections of <=3 of 12 expressions (1884) x 3 styles x label_length None/6 x 8 forms",
-                thorough="all selections of <=4 of 12 expressions (22620) x 3 styles x 8 forms at label_length None; <=3 (1884) at label_length 6 and 10"),
+    bounds=dict(quick="all selections of <=3 of 12 expressions (1884) plus all selections of 4 of a 5-expression sub-pool (625) x 3 styles x label_length None/6 x 8 forms",
+                thorough="all selections of <=4 of 12 expressions (22620) x 3 styles x 8 forms at label_length None; <=3 plus the 4-of-5 sub-pool (2509) at label_length 6 and 10"),
 )
 
 # ------------------------------------------------------------------ world
@@ -126,6 +126,10 @@ G3 = ("explicit label equal to an auto-generated de-duplication label (select(al
 G4 = ("columns matched by name (cursor.description longer than the compiled column list, e.g. a text() element holding two "
       "columns) with a duplicated name: when the number of distinct description names equals the number of compiled columns the "
       "duplicate goes unnoticed and row._mapping[alpha.c.x] / row._mapping['x'] return the last same-named column's value (bravo.x)")
+
+G5 = ("an anonymous bind parameter named after the same column consumes the de-duplication counter "
+      "(select(a.id, (a.id + 100).label('w'), b.id, c.id) renders b.id AS id_2, c.id AS id_3): row._mapping['id_2'], row.id_2 and "
+      "mappings() return c.id's value under the key 'id_2' that result.keys() assigns to b.id; b.id's value is unreachable by name")
 
 _AUTO = re.compile(r"^.*_\d+$")
 _ENGINES = {}
@@ -265,7 +269,12 @@ def check_case(sel, style, wrapper, ll, rec=None):
     for attempt in ("miss", "hit"):
         with warnings.catch_warnings():
             warnings.simplefilter("ignore")
-            b = build(sel, style, wrapper, conn)
+            try:
+                b = build(sel, style, wrapper, conn)
+            except (exc.InvalidRequestError, exc.CompileError) as e:
+                if rec is not None:
+                    rec.count("statement_refused_%s" % type(e).__name__)
+                return None
             if b is None:
                 return None
             try:
@@ -305,6 +314,13 @@ def check_case(sel, style, wrapper, ll, rec=None):
                 exp = tup
             else:
                 cand = [e for e in exp_rows if sorted(e) == sorted(tup)]
+                if not cand and len(set(dnames)) < len(dnames):
+                    # the derived table was rendered with two columns of one name (an explicit label x_1
+                    # coinciding with a de-duplication label generated only in the nested compile): the
+                    # database resolves sq.x_1 to the first - SQL generation (root cause G3), not row lookup
+                    if rec is not None:
+                        rec.count("derived_table_with_duplicate_column_names")
+                    return None
                 if not cand:
                     problems.append(("positional", "%s: row %r does not hold the expected values %r" % (attempt, tup, exp_rows)))
                     continue
@@ -404,6 +420,9 @@ def check_case(sel, style, wrapper, ll, rec=None):
                     if got[0] == "val":
                         if g4:
                             known = G4
+                        elif (len(Pk) == 1 and not dupkeys and _AUTO.match(s) and wrapper in ("plain", "union", "subquery", "cte", "mismatch")
+                              and any(tup[q] == got[1] and _AUTO.match(keys[q]) for q in range(ncols) if q != Pk[0])):
+                            known = G5
                         elif wrapper == "text_raw" and len(Pd) >= 2:
                             known = G1
                         elif wrapper == "text_pos" and not Pk and len(B) >= 2:
@@ -415,9 +434,14 @@ def check_case(sel, style, wrapper, ll, rec=None):
     return problems
 
 
+SUBPOOL4 = (0, 1, 2, 3, 5)  # three same-named columns, a fourth name, an expression with an anonymous bind
+
+
 def selections(maxlen, npool):
     for n in range(1, maxlen + 1):
         yield from itertools.product(range(npool), repeat=n)
+    if maxlen < 4:
+        yield from itertools.product(SUBPOOL4, repeat=4)
 
 
 def is_nontrivial(sel):
@@ -452,7 +476,7 @@ def run_shard(shard, tier, rec):
             continue
         nt = is_nontrivial(sel)
         rec.case((ll, style, wrapper, sel), nontrivial=nt)
-        if nt and len(sel) == 3 and idx % 97 == 5:
+        if nt and len(sel) >= 3 and idx % 97 == 5:
             rec.sample(dict(label_length=ll, style=style, wrapper=wrapper, select=desc(sel)), limit=2)
         for pr in res:
             kind, detail = pr[0], pr[1]
